@@ -231,20 +231,20 @@ def run(tier, seed):
     params = {}
     for nm in r.sample(['x', 'b', 's', 'i', 'é'], r.randrange(0, 4)):
       params[nm] = r.choice([0.0, 1.5, -2.0, 0, 3, '', 'cat', 'True'])
-    t = vz.Trial(id=r.randrange(1, 50), parameters=params, assigned_worker=r.choice([None, 'w']),
-                 description=r.choice([None, 'd']))
+    t = vz.Trial(id=r.randrange(1, 50), parameters=params, assigned_worker=r.choice([None, 'w', 'w', '']),
+                 description=r.choice([None, 'd', 'd', '']))
     st = r.choice(['active', 'requested', 'succeeded', 'infeasible', 'stopping'])
     if r.random() < 0.5:
       t.measurements.append(vz.Measurement({'m': 1.0}, elapsed_secs=r.choice([0.0, 2.5]), steps=1))
     if r.random() < 0.6:
-      ns = r.choice([(), ('a',), ('a', 'b:c'), ('',)])
+      ns = r.choice([(), ('a',), ('a', 'b:c'), ('',), ('', 'a'), ('', ''), ('a', ''), (':',), ('', '', 'b')])
       t.metadata.abs_ns(vz.Namespace(ns))[r.choice(['k', ''])] = md_value()
     if st == 'requested':
       t.is_requested = True
     elif st == 'succeeded':
       t.complete(vz.Measurement({'m': float(r.randrange(3)), 'n': 0.0}, elapsed_secs=1.25, steps=2))
     elif st == 'infeasible':
-      t.complete(vz.Measurement(), infeasibility_reason='bad')
+      t.complete(vz.Measurement() if r.random() < 0.5 else vz.Measurement({'m': 1.0}), infeasibility_reason=r.choice(['bad', '']))
     elif st == 'stopping':
       t.stopping_reason = 'because'
     pr = T.to_proto(t)
@@ -254,7 +254,14 @@ def run(tier, seed):
     t_cmp, b_cmp = copy.deepcopy(t), copy.deepcopy(back)
     t_cmp.stopping_reason = b_cmp.stopping_reason = None   # documented as not transmitted
     if t_cmp != b_cmp:
-      viol('Trial differs after to_proto/from_proto', {'trial': repr(t), 'back': repr(back)})
+      # known finding: proto3 strings carry no presence, so '' comes back as None for description / assigned_worker
+      lost = [f for f in ('description', 'assigned_worker') if getattr(t_cmp, f) == '' and getattr(b_cmp, f) is None]
+      for f in lost:
+        setattr(t_cmp, f, None)
+      if lost and t_cmp == b_cmp:
+        viol('Trial.%s == \'\' comes back as None' % lost[0], {'trial': repr(t), 'back': repr(back)}, 'C09-empty-string-becomes-none')
+      else:
+        viol('Trial differs after to_proto/from_proto', {'trial': repr(t), 'back': repr(back)})
     if T.to_proto(back) != pr:
       viol('second conversion of a Trial is not identical', {'trial': repr(t)})
     sug = vz.TrialSuggestion(params, metadata=t.metadata)
@@ -265,7 +272,7 @@ def run(tier, seed):
   for i in range(N // 3):
     d = vz.MetadataDelta()
     for _ in range(r.randrange(0, 4)):
-      ns = vz.Namespace(r.choice([(), ('a',), ('a', 'b'), ('x:y',)]))
+      ns = vz.Namespace(r.choice([(), ('a',), ('a', 'b'), ('x:y',), ('', 'a'), ('', ''), ('a', '')]))
       if r.random() < 0.5:
         d.on_study.abs_ns(ns)[r.choice(['k', 'k2'])] = md_value()
       else:
